@@ -69,6 +69,11 @@ def filterMap (f : T → Option R) : SList T → SList R
     | none => mappedRest
     | some m => .cons m mappedRest
 
+/-- `iter` (list.sam:60), callback as a state transformer -/
+def iter {σ : Type} (f : T → σ → σ) : SList T → σ → σ
+  | .nil, s => s
+  | .cons v rest, s => iter f rest (f v s)
+
 /-- `contains` (list.sam:67) -/
 def contains (element : T) (equal : T → T → Bool) : SList T → Bool
   | .nil => false
